@@ -45,7 +45,7 @@ struct chunk { unsigned int magic, op, gran, idx; };
 
 static char devpath[512], undopath[512];
 static io_channel chan;
-static long long fsoff;
+static long long fsoff, devsize0;
 static int opno;
 static unsigned int crctab[256];
 #define MAXK 8192
@@ -144,7 +144,13 @@ static void print_undo(FILE *o)
 	lay_nk = lay_nkb = lay_tdb = 0;
 	nkeys = le64(hdr + 8); soff = le64(hdr + 16); koff = le64(hdr + 24);
 	tdb = le32(hdr + 32); fsbs = le32(hdr + 36); state = le32(hdr + 44); foff = le64(hdr + 64);
-	if (memcmp(hdr, "E2UNDO02", 8) || crc32c(~0u, hdr, 508) != le32(hdr + 508))
+	if (memcmp(hdr, "E2UNDO02", 8)) {
+		/* created, but no header written yet (or the magic is damaged): not an undo file */
+		fprintf(o, "\"uf\":0,\"hdr\":[0,0,0,0,0],\"pok\":0,\"sbt\":-3,\"keys\":[],\"kpos\":[]");
+		close(fd);
+		return;
+	}
+	if (crc32c(~0u, hdr, 508) != le32(hdr + 508))
 		pok = 0;
 	if (!(le32(hdr + 48) & 1))
 		foff = 0;
@@ -199,7 +205,7 @@ static void print_undo(FILE *o)
 		}
 		fprintf(o, "],\"kpos\":[%s]", kpos);
 	} else {
-		if (tdb || nkeys) pok = pok && 0;
+		pok = 0;		/* block size 0 (nothing recorded) or out of range: e2undo calls the header corrupt */
 		fprintf(o, "],\"kpos\":[]");
 	}
 	fprintf(o, ",\"pok\":%d", pok);
@@ -273,7 +279,7 @@ int main(void)
 				if (write(fd, buf, G) != G) { perror("write"); return 2; }
 			}
 			close(fd);
-			opno = 0; fsoff = 0;
+			opno = 0; fsoff = 0; devsize0 = n * G;
 			fprintf(o, "{\"e\":\"reset\",\"a\":%lld,\"n\":0,\"ret\":0,\"bs\":0,\"uf\":0,\"hdr\":[0,0,0,0,0],\"sbt\":-3,\"keys\":[],\"kpos\":[],\"pok\":0,\"len\":0,\"dev\":[]}\n", n);
 			fflush(o);
 		} else if (!strcmp(cmd, "open")) {
@@ -290,13 +296,14 @@ int main(void)
 			line_end(o, "open", a / G, b / G, rv, 0);
 		} else if (!strcmp(cmd, "blk")) {
 			sscanf(line, "%*s %lld", &a);
-			rv = chan ? io_channel_set_blksize(chan, a) : 1;
+			if (!chan) { line_end(o, "nochan", 0, 0, 1, 0); continue; }
+			rv = io_channel_set_blksize(chan, a);
 			line_end(o, "blk", a / G, 0, rv, 0);
 		} else if (!strcmp(cmd, "wblk")) {
 			long long lo, len;
 			unsigned char *buf;
 			sscanf(line, "%*s %lld %lld", &a, &b);
-			if (!chan) { line_end(o, "wblk", a, b, 1, 0); continue; }
+			if (!chan) { line_end(o, "nochan", 0, 0, 1, 0); continue; }
 			lo = a * chan->block_size + fsoff;
 			len = b < 0 ? -b : b * chan->block_size;
 			buf = malloc(len + CH);
@@ -304,6 +311,8 @@ int main(void)
 			fill(buf, lo, len, opno);
 			rv = io_channel_write_blk64(chan, a, b, buf);
 			free(buf);
+			/* keep the file length equal to the logical length: a write past the old end is not left in the cache */
+			if (lo + len > devsize0) io_channel_flush(chan);
 			if (b < 0)
 				line_end(o, "wneg", a, ((lo + len + G - 1) / G) - lo / G, rv, 0);
 			else
@@ -311,23 +320,24 @@ int main(void)
 		} else if (!strcmp(cmd, "wbyte")) {
 			unsigned char *buf;
 			sscanf(line, "%*s %lld %lld", &a, &b);
-			if (!chan) { line_end(o, "wbyte", a, b, 1, 0); continue; }
+			if (!chan) { line_end(o, "nochan", 0, 0, 1, 0); continue; }
 			buf = malloc(b + CH);
 			opno++;
 			fill(buf, a + fsoff, b, opno);
 			rv = io_channel_write_byte(chan, a, b, buf);
 			free(buf);
+			if (a + fsoff + b > devsize0) io_channel_flush(chan);
 			line_end(o, "wbyte", a / G, (a + b + G - 1) / G - a / G, rv, 0);
 		} else if (!strcmp(cmd, "zero") || !strcmp(cmd, "disc")) {
 			sscanf(line, "%*s %lld %lld", &a, &b);
-			if (!chan) { line_end(o, cmd, a, b, 1, 0); continue; }
+			if (!chan) { line_end(o, "nochan", 0, 0, 1, 0); continue; }
 			opno++;
 			io_channel_flush(chan);
 			rv = cmd[0] == 'z' ? io_channel_zeroout(chan, a, b) : io_channel_discard(chan, a, b);
 			line_end(o, cmd, a, b, rv, 0);
 		} else if (!strcmp(cmd, "close")) {
 			sscanf(line, "%*s %lld", &a);
-			if (!chan) { line_end(o, "close", a, 0, 1, 0); continue; }
+			if (!chan) { line_end(o, "nochan", 0, 0, 1, 0); continue; }
 			if (a) unsetenv("UNDO_IO_SIMULATE_UNFINISHED"); else setenv("UNDO_IO_SIMULATE_UNFINISHED", "1", 1);
 			rv = io_channel_close(chan);
 			chan = NULL;
@@ -343,6 +353,13 @@ int main(void)
 			sscanf(line, "%*s %63s %lld %lld", s1, &k, &i);
 			print_undo(nul);		/* refresh the layout */
 			fclose(nul);
+			/* k and i are reduced modulo what the file has, so that a script can ask for "some" key / bit */
+			if ((!strcmp(s1, "key") && !lay_nkb) || (!strcmp(s1, "data") && !lay_nk) || (!strcmp(s1, "sb") && !lay_tdb))
+				strcpy(s1, "hdr");
+			if (!strcmp(s1, "hdr")) i %= 512 * 8;
+			else if (!strcmp(s1, "sb")) i %= G * 8;
+			else if (!strcmp(s1, "key")) { k %= lay_nkb; i %= (long long)lay_tdb * 8; }
+			else if (!strcmp(s1, "data")) { k %= lay_nk; while (!lay_size[k]) k = (k + 1) % lay_nk; i %= (long long)lay_size[k] * 8; }
 			if (!strcmp(s1, "hdr")) { byte = i / 8; blkno = 0; if (byte >= 512) byte = -1; }
 			else if (!strcmp(s1, "sb") && lay_tdb) { byte = (long long)lay_tdb + i / 8; blkno = 1; if (i / 8 >= G) byte = -1; }
 			else if (!strcmp(s1, "key") && k < lay_nkb) { byte = lay_kpos[k] * lay_tdb + i / 8; blkno = lay_kpos[k]; if (i / 8 >= lay_tdb) byte = -1; }
